@@ -135,6 +135,7 @@ def main():
                 res = run_xh(fn, float(arg))
             elif kind == 'sx':
                 from lib import symx
+                symx.selftest()
                 res = symx.explore(fn, float(arg))
             else:
                 res = fn(sl, float(arg))
